@@ -474,6 +474,15 @@ def r5_determinism(chk, cf):
             chk.fail("C13.R5", f"{pf.key}:hidden-state:{fn.key}", fn.where(), f"{fn.qualname} {what} and is reachable: {' -> '.join(p.split(':')[-1] for p in path)} - parsing the same drawing twice can give different models")
     else:
         chk.ok("C13.R5", f"{pf.key}:no-hidden-state-reachable", pf.where(), f"{len(paths)} functions reachable from __getitem__/_parse_fragment; none reads hidden state")
+    # the containers a CDXMLFile fills while resolving labels belong to that object: a field default that is one mutable
+    # object (`default={}`) is shared by every CDXMLFile of the process, so one drawing answers for another
+    from ..util import shared_mutable_defaults
+
+    shared = shared_mutable_defaults(prog, cf)
+    chk.decide(not shared, "C13.R5", f"{cf.module.relpath}:{cf.name}:containers-are-per-instance", f"{cf.module.relpath}:{(shared[0][1] if shared else cf.node).lineno}",
+               f"{len(prog.fields(cf))} fields; every container default is a factory",
+               "; ".join(f"field `{n}` defaults to the single object `{t}` shared by all instances" for n, _, t in shared) +
+               ": what a label resolved to in one file is returned for the same label in another file (and in a mirrored copy of the drawing)")
     # cache discipline: every branch that resolves a fragment stores exactly that fragment under the key before parsing
     # stated on the flow graph: no path reaches `return self._parse_fragment(F, ...)` without either reading F from the
     # cache or storing into the cache the very fragment that flows into F
